@@ -12,7 +12,8 @@
 (* binary payloads as lower-case hexadecimal, in order.                    *)
 (*                                                                         *)
 (* The read contract is PfbReadOK.  For a well-formed stream each          *)
-(* Read(p) with |p| >= 1 returns exactly n = min(|p|, remaining) bytes,    *)
+(* Read(p) returns exactly n = min(|p|, remaining) bytes (a Read with an   *)
+(* empty buffer returns nothing and changes nothing),                      *)
 (* the next bytes of the content: the caller's buffer is always filled     *)
 (* unless the stream ends.  End of file is reported together with the last *)
 (* bytes or by a later call (io.Reader allows both) and never earlier.     *)
@@ -134,11 +135,11 @@ PfbAllowedErr(term) == CASE term = "eof" -> {"nil", "eof"}
 
 \* One Read(p), |p| = cap, after pos bytes have been delivered, returned (n, e) and put `out` into p[0..n-1].
 PfbReadOK(D, term, pos, cap, n, out, e) ==
-    /\ cap >= 1 /\ n \in 0..cap
+    /\ cap >= 0 /\ n \in 0..cap                             \* an empty buffer is a legal argument (io.Reader)
     /\ pos + n <= Len(D)
     /\ out = SubSeq(D, pos + 1, pos + n)                   \* the next bytes of the content and nothing else
     /\ e \in PfbAllowedErr(term)                           \* errors only where and as prescribed
-    /\ e = "nil" => n >= 1                                 \* a call that delivers nothing says why
+    /\ (e = "nil" /\ cap >= 1) => n >= 1                   \* a call that delivers nothing says why
     /\ term = "eof" =>
           /\ n = PfbMin(cap, Len(D) - pos)                 \* fills the buffer unless the stream ends
           /\ e = "eof" => pos + n = Len(D)                 \* end of file only at the end
@@ -146,7 +147,7 @@ PfbReadOK(D, term, pos, cap, n, out, e) ==
 \* Which conjunct of PfbReadOK fails first ("ok": none).  Used for reporting only; MC_PFB!ClassAgrees
 \* checks that it is "ok" exactly when PfbReadOK holds.
 PfbRejectClass(D, term, pos, cap, n, out, e) ==
-    IF ~(cap >= 1 /\ n \in 0..cap) THEN "pfb read: count out of range"
+    IF ~(cap >= 0 /\ n \in 0..cap) THEN "pfb read: count out of range"
     ELSE IF pos + n > Len(D)
          THEN (IF term = "invalid" THEN "pfb header: accepted invalid" ELSE "pfb read: bytes beyond the content")
     ELSE IF out # SubSeq(D, pos + 1, pos + n) THEN "pfb read: wrong bytes"
@@ -156,7 +157,7 @@ PfbRejectClass(D, term, pos, cap, n, out, e) ==
                  [] e # "invalid" /\ term = "invalid" /\ e # "eof" -> "pfb header: wrong error class"
                  [] term = "error" /\ e = "eof" -> "pfb short binary: clean EOF"
                  [] OTHER -> "pfb read: unexpected error")
-    ELSE IF e = "nil" /\ n = 0 THEN "pfb read: no progress"
+    ELSE IF e = "nil" /\ n = 0 /\ cap >= 1 THEN "pfb read: no progress"
     ELSE IF term = "eof" /\ n # PfbMin(cap, Len(D) - pos) THEN "pfb read: short fill"
     ELSE IF term = "eof" /\ e = "eof" /\ pos + n # Len(D) THEN "pfb read: early EOF"
     ELSE "ok"
